@@ -45,4 +45,16 @@ WidthExact(plain, opt) ==
             e.res # "ok" /\ ~(e.res = "size" /\ e.k = "elem" /\ e.width > 0 /\ ~Representable(e))
        THEN "C09: a size option that can be honoured was rejected, or a call was rejected for another reason"
   ELSE ""
+\* a Full item written with the unknown-size option (directly or through the deprecated call): if the writer accepts it,
+\* unknown size has affected size fields only - the output reads back to the same tags as the plain presentation; the
+\* alternative is a rejection of exactly that call as a size error (nothing may be dropped silently)
+FullUnknown(plain, opt) ==
+  IF AllOk(opt.evs) THEN
+     (IF opt.rb.last.res # "none" \/ plain.rb.last.res # "none" THEN "C09: a Full item accepted with the unknown-size option does not read back cleanly"
+      ELSE IF Len(opt.rb.items) # Len(plain.rb.items) \/ \E i \in 1..Len(opt.rb.items) : ~KidSame(opt.rb.items[i], plain.rb.items[i])
+           THEN "C09: a Full item accepted with the unknown-size option lost or changed ids / payloads (unknown size must affect size fields only)"
+      ELSE "")
+  ELSE IF \E i \in 1..Len(opt.evs) : opt.evs[i].res # "ok" /\ ~(opt.evs[i].k = "full" /\ opt.evs[i].unknown /\ opt.evs[i].res = "size")
+       THEN "C09: a call other than the Full item with the unknown-size option was rejected"
+  ELSE ""
 =============================================================================
